@@ -155,13 +155,13 @@ Inductive finding :=
 
 (* for a failing instance: the first uncertified pairs, each with a confirmed bad schedule if one is found, and, when
    the progress condition live_graph rejects the graph, what it rejects together with a confirmed stuck schedule *)
-Definition search_instance (G : graph) (trace : list event) (order : list N) (pairs hpairs : list (N * N))
+Definition search_instance (G : graph) (trace : list event) (order : list N) (pairs hpairs ranks : list (N * N))
   : list finding :=
   map (fun p => match bad_schedule G p with
                 | Some s => if confirms G p s then Unordered (fst p) (snd p) (Some s) else Unordered (fst p) (snd p) None
                 | None => Unordered (fst p) (snd p) None
                 end)
       (firstn 3 (filter (fun p => negb (pair_ok (snd (closure G order)) p)) pairs))
-  ++ (if live_instance G order then []
-      else let '(a, b, c) := live_failures G order in [Stuck a b c (stuck_schedule G)])
+  ++ (if live_ranked G ranks then []
+      else let '(a, b, c) := live_failures_ranked G ranks in [Stuck a b c (stuck_schedule G)])
   ++ (if calm_graph G then [] else [Panics (calm_failures G) (panic_schedule G)]).
